@@ -1,4 +1,4 @@
 SPECIFICATION TraceSpec
-INVARIANTS HarnessGenuineAccepted HarnessAltAgrees C47_VerifyExact
+INVARIANTS HarnessGenuineAccepted HarnessAltAgrees C47_VerifyExact C47_ObjectExact C47_ObjectBound
 POSTCONDITION Accepted
 CHECK_DEADLOCK FALSE
